@@ -1093,7 +1093,9 @@ def gen_threads(seed, params=None):
                              rng.choice(['x0', 'x1']), 'METADATA'])
         bodies.append(body)
     # another thread asks about a target whose function fails: a failed
-    # output is never visible, whatever the interleaving
+    # output is never visible, whatever the interleaving (provided nothing
+    # foreign sits at that path before the build)
+    peeked = set()
     for i, body in enumerate(list(bodies)):
         for st in list(body):
             if st[0] == 'bf' and st[2] in ('Fbad', 'Fnone') and nt > 1 and \
@@ -1103,11 +1105,13 @@ def gen_threads(seed, params=None):
                                       'get_size', 'declare_read']), st[1],
                      'METADATA']
                 bodies[j].insert(rng.randint(0, len(bodies[j])), q)
+                peeked.add(st[1])
     if P.get('p_foreign', 0.0) and rng.random() < P['p_foreign']:
         # foreign files at the targets: every thread moves one aside
         for body in bodies:
             for st in body:
-                if st[0] == 'bf' and rng.random() < 0.7:
+                if st[0] == 'bf' and st[1] not in peeked and \
+                        rng.random() < 0.7:
                     init.append(['write', st[1], 'foreign-' + st[1]])
     spawn = ['spawn', bodies]
     if rng.random() < P['p_same_key']:
